@@ -41,6 +41,7 @@ type FuncSpec struct {
 	sawStar   bool
 	Lets      map[string]ast.Expr // abbreviations usable in the clauses of this block
 	PreservesHeld bool // the callee does not write state guarded by locks the caller holds (no re-entry into the monitor)
+	Locals    []GhostLocal // specification-only recorders owned by this function (initialised at entry, invisible to callers' frames)
 	EntrySets []*GhostSet // ghost assignments that happen when the function is called (definitional)
 	Events    []Clause // ghost counters that calling this function increments (the call itself is the event)
 	GhostSets []*GhostSet
@@ -50,6 +51,11 @@ type FuncSpec struct {
 	Replay    ast.Expr          // call to a replay builder (verif-tagged Go function) with entry-state arguments
 	ReplayText string
 	ReplayPost ast.Expr // like Replay, arguments evaluated in the post state (for post obligations)
+}
+
+type GhostLocal struct {
+	Name string
+	Init ast.Expr
 }
 
 // GhostSet: ghost assignments executed before/after the k-th call to Callee inside the function
@@ -89,6 +95,7 @@ type Specs struct {
 	Assumes []string
 	GhostVars map[string]string
 	GhostPkg  map[string]string // package (directory name) whose scope resolves the ghost variable's type
+	GhostLocal map[string]bool
 }
 
 var propTagRe = regexp.MustCompile(`\[((?:C\d+)(?:\s*,\s*C\d+)*)\]\s*$`)
@@ -241,7 +248,7 @@ func mkClause(text string) (Clause, error) {
 
 // LoadSpecs reads //@ blocks from every zz_verif*.go file under the repo and *.spec under extern dir.
 func LoadSpecs(repo string, externDir string) (*Specs, error) {
-	sp := &Specs{Funcs: map[string]*FuncSpec{}, Loops: map[string]*LoopSpec{}, Types: map[string]*TypeSpec{}, Ifaces: map[string]*FuncSpec{}, GhostVars: map[string]string{}, GhostPkg: map[string]string{}}
+	sp := &Specs{Funcs: map[string]*FuncSpec{}, Loops: map[string]*LoopSpec{}, Types: map[string]*TypeSpec{}, Ifaces: map[string]*FuncSpec{}, GhostVars: map[string]string{}, GhostPkg: map[string]string{}, GhostLocal: map[string]bool{}}
 	var files []string
 	for _, pk := range repoPkgs {
 		m, _ := filepath.Glob(filepath.Join(repo, pk, "zz_verif*.go"))
@@ -461,6 +468,28 @@ func (sp *Specs) parseFile(path string, extern bool) error {
 			if curF != nil {
 				curF.PreservesHeld = true
 			}
+		case "local":
+			// local $name <type> = <init>
+			if curF == nil {
+				return fail(fmt.Errorf("local outside func block"))
+			}
+			eq := indexTop(rest, "=")
+			if eq < 0 {
+				return fail(fmt.Errorf("local $name <type> = <init>"))
+			}
+			fs := strings.Fields(rest[:eq])
+			if len(fs) != 2 || !strings.HasPrefix(fs[0], "$") {
+				return fail(fmt.Errorf("local $name <type> = <init>"))
+			}
+			e, err := parseSpecExpr(strings.TrimSpace(rest[eq+1:]))
+			if err != nil {
+				return fail(err)
+			}
+			name := strings.TrimPrefix(fs[0], "$")
+			sp.GhostVars[name] = fs[1]
+			sp.GhostPkg[name] = filepath.Base(filepath.Dir(path))
+			sp.GhostLocal[name] = true
+			curF.Locals = append(curF.Locals, GhostLocal{name, e})
 		case "entry-set":
 			if curF == nil {
 				return fail(fmt.Errorf("entry-set outside func block"))
